@@ -164,7 +164,7 @@ func firstOps(c *mon.Ctx) {
 		c.Inconclusive("first-op: dump child failed: %v %s", err, out)
 		return
 	}
-	nOps := 20
+	nOps := 26 // at least the number of operations of a package: each one is the first operation of some child
 	for k := 0; k < nOps; k++ {
 		out, err := exec.Command(self, "-mode=firstop", fmt.Sprintf("-which=%d", k), "-dump="+tmp.Name()).CombinedOutput()
 		if err != nil {
